@@ -305,3 +305,64 @@ for mk, fns in RO_FUNCS.items():
           lib=ITEMLIB, stubs=ITEM_STUBS, contracts=ITEM_CONTRACTS, harness="harness/ro.c",
           defines=["RO_FN=" + fn, "RO_MK=" + mk], enforce=fn, replace=calls,
           must_exist=[r"%s\.postcondition\.1" % fn] if fn != "cbor_float_get_float" else [], min_covers=1, cost=2)
+
+# ------------------------------------------------------------------------------------------------
+# L2 items: constructors, setters, refcount primitives (C04, C06, C13)
+OPS_CONTRACTS = ["contracts/items_ro.h", "contracts/items_ops.h", "contracts/memory_utils.h"]
+OPS_PROPS = {"C04": FUNC + FRAME, "C06": FUNC + FRAME, "C13": FUNC, "C01": SAFETY, "C17": FRAME}
+
+
+def OP(fn, defines, replace=(), props=None, name=None, must=1, covers=1, backend=None, **kw):
+    P(name=name or ("op_" + fn.replace("cbor_", "")), props=dict(props or OPS_PROPS), lib=ITEMLIB, stubs=ITEM_STUBS,
+      contracts=OPS_CONTRACTS, harness="harness/ops.c", defines=defines, enforce=fn, replace=list(replace),
+      must_exist=[r"%s\.postcondition\.%d" % (fn, must)], min_covers=covers, cost=3,
+      **(dict(backend=backend, **kw) if backend else kw))
+
+
+OP("cbor_incref", ["H_ITEM_OP", "MK=mk_any", "PRE=1", "CALL=cbor_incref(it)"])
+OP("cbor_move", ["H_ITEM_OP", "MK=mk_any", "PRE=1", "CALL=cbor_move(it)"])
+for w, ct in (("8", "CBOR_INT_8"), ("16", "CBOR_INT_16"), ("32", "CBOR_INT_32"), ("64", "CBOR_INT_64")):
+    OP("cbor_set_uint" + w, ["H_ITEM_OP", "MK=mk_int", "PRE=INT_WIDTH(it)==" + ct, "CALL=cbor_set_uint%s(it,(uint%s_t)nd)" % (w, w)],
+       replace=["cbor_is_int", "cbor_int_get_width"])
+    OP("cbor_new_int" + w, ["H_CTOR", "CALL=cbor_new_int%s()" % w], must=4, covers=2)
+    OP("cbor_build_uint" + w, ["H_CTOR", "CALL=cbor_build_uint%s((uint%s_t)nd)" % (w, w)], must=4, covers=2,
+       replace=["cbor_new_int" + w, "cbor_set_uint" + w, "cbor_mark_uint"])
+    OP("cbor_build_negint" + w, ["H_CTOR", "CALL=cbor_build_negint%s((uint%s_t)nd)" % (w, w)], must=4, covers=2,
+       replace=["cbor_new_int" + w, "cbor_set_uint" + w, "cbor_mark_negint"])
+OP("cbor_mark_uint", ["H_ITEM_OP", "MK=mk_int", "PRE=1", "CALL=cbor_mark_uint(it)"], replace=["cbor_is_int"])
+OP("cbor_mark_negint", ["H_ITEM_OP", "MK=mk_int", "PRE=1", "CALL=cbor_mark_negint(it)"], replace=["cbor_is_int"])
+OP("cbor_set_float2", ["H_ITEM_OP", "MK=mk_float_ctrl", "PRE=FL_WIDTH(it)==CBOR_FLOAT_16", "CALL=cbor_set_float2(it,ndf)"],
+   replace=["cbor_is_float", "cbor_float_get_width"], props=dict(OPS_PROPS, C15=FUNC))
+OP("cbor_set_float4", ["H_ITEM_OP", "MK=mk_float_ctrl", "PRE=FL_WIDTH(it)==CBOR_FLOAT_32", "CALL=cbor_set_float4(it,ndf)"],
+   replace=["cbor_is_float", "cbor_float_get_width"], props=dict(OPS_PROPS, C15=FUNC))
+OP("cbor_set_float8", ["H_ITEM_OP", "MK=mk_float_ctrl", "PRE=FL_WIDTH(it)==CBOR_FLOAT_64", "CALL=cbor_set_float8(it,ndd)"],
+   replace=["cbor_is_float", "cbor_float_get_width"], props=dict(OPS_PROPS, C15=FUNC))
+OP("cbor_set_ctrl", ["H_ITEM_OP", "MK=mk_float_ctrl", "PRE=FL_WIDTH(it)==CBOR_FLOAT_0", "CALL=cbor_set_ctrl(it,(uint8_t)nd)"],
+   replace=["cbor_isa_float_ctrl", "cbor_float_get_width"])
+OP("cbor_set_bool", ["H_ITEM_OP", "MK=mk_float_ctrl",
+                     "PRE=FL_WIDTH(it)==CBOR_FLOAT_0&&(it->metadata.float_ctrl_metadata.ctrl==20||it->metadata.float_ctrl_metadata.ctrl==21)",
+                     "CALL=cbor_set_bool(it,nd&1)"], replace=["cbor_is_bool"])
+for fn, call, rep in (
+        ("cbor_new_ctrl", "cbor_new_ctrl()", []),
+        ("cbor_new_null", "cbor_new_null()", ["cbor_new_ctrl", "cbor_set_ctrl"]),
+        ("cbor_new_undef", "cbor_new_undef()", ["cbor_new_ctrl", "cbor_set_ctrl"]),
+        ("cbor_build_bool", "cbor_build_bool(ndb)", ["cbor_build_ctrl"]),
+        ("cbor_build_ctrl", "cbor_build_ctrl((uint8_t)nd)", ["cbor_new_ctrl", "cbor_set_ctrl"]),
+        ("cbor_new_float2", "cbor_new_float2()", []), ("cbor_new_float4", "cbor_new_float4()", []),
+        ("cbor_new_float8", "cbor_new_float8()", []),
+        ("cbor_build_float2", "cbor_build_float2(ndf)", ["cbor_new_float2", "cbor_set_float2"]),
+        ("cbor_build_float4", "cbor_build_float4(ndf)", ["cbor_new_float4", "cbor_set_float4"]),
+        ("cbor_build_float8", "cbor_build_float8(ndd)", ["cbor_new_float8", "cbor_set_float8"]),
+        ("cbor_new_definite_bytestring", "cbor_new_definite_bytestring()", []),
+        ("cbor_new_definite_string", "cbor_new_definite_string()", []),
+        ("cbor_new_indefinite_bytestring", "cbor_new_indefinite_bytestring()", []),
+        ("cbor_new_indefinite_string", "cbor_new_indefinite_string()", []),
+        ("cbor_new_tag", "cbor_new_tag(nd)", [])):
+    OP(fn, ["H_CTOR", "CALL=" + call], replace=rep, must=4, covers=2,
+       props=dict(OPS_PROPS, C15=FUNC) if "float" in fn else None)
+OP("cbor_bytestring_set_handle", ["H_BYTESTRING_SET_HANDLE"], replace=["cbor_isa_bytestring", "cbor_bytestring_is_definite"])
+OP("cbor_string_set_handle", ["H_STRING_SET_HANDLE"], replace=["cbor_isa_string", "cbor_string_is_definite", "_cbor_unicode_codepoint_count"],
+   props=dict(OPS_PROPS, C16=FUNC + FRAME + ["cbor_assert"]), must=3, covers=2)
+OP("cbor_tag_set_item", ["H_TAG_SET_ITEM"], replace=["cbor_isa_tag", "cbor_incref"])
+OP("cbor_tag_item", ["H_TAG_ITEM"], replace=["cbor_isa_tag", "cbor_incref"])
+OP("cbor_build_tag", ["H_BUILD_TAG"], replace=["cbor_new_tag", "cbor_tag_set_item"], must=4, covers=2)
